@@ -17,6 +17,7 @@ package PKGNAME
 
 import (
 	"fmt"
+	"math"
 	"os"
 	"path/filepath"
 	"sort"
@@ -71,14 +72,27 @@ func (s *vSelfEnd) StartRun() error {
 			}
 		}
 		for {
-			select {
-			case <-s.abortSelf:
-				close(s.nextBlock)
-				return
-			case <-s.endNow:
-				finish()
-				return
-			case <-time.After(s.period):
+			if s.period == 0 {
+				// flood: the next block is on offer as soon as the previous one has been taken
+				select {
+				case <-s.abortSelf:
+					close(s.nextBlock)
+					return
+				case <-s.endNow:
+					finish()
+					return
+				default:
+				}
+			} else {
+				select {
+				case <-s.abortSelf:
+					close(s.nextBlock)
+					return
+				case <-s.endNow:
+					finish()
+					return
+				case <-time.After(s.period):
+				}
 			}
 			if s.endAfter > 0 && n >= s.endAfter {
 				finish()
@@ -236,6 +250,7 @@ type vCtl struct {
 	archiving    bool // a raw-data request may still be pending
 	lenUnknown   bool // a refused length change may have been applied to some channels: shapes are no longer predictable
 	stateFull    bool // writes to the current run's experiment-state file fail: label requests may be refused
+	flood        bool // the source always has a block on offer
 	forceExtTrig bool // the next eligible START of this session gets the external-trigger-file fault
 	emtOn        bool // an edge-multi request was accepted: validity of record lengths now also depends on its parameters
 	hist         []string
@@ -258,7 +273,31 @@ func (k *vCtl) do(what string, want string, f func() error) (err error, returned
 	c := k.c
 	k.note("%s (want %s)", what, want)
 	var e error
+	answered := make(chan struct{})
+	if k.flood && k.active && !k.selfEnded {
+		// starvation monitor (logical: blocks processed while the request waits; the 3 s are only a lower bound)
+		p0, t0 := atomic.LoadInt64(&k.mon.processEnds), time.Now()
+		go func() {
+			for {
+				select {
+				case <-answered:
+					return
+				case <-time.After(50 * time.Millisecond):
+				}
+				if n := atomic.LoadInt64(&k.mon.processEnds) - p0; n > 50000 && time.Since(t0) > 3*time.Second {
+					c.Violate("c11:request-starved", "request %s has not been answered while the source processed %d further blocks (a block was on offer at every block boundary)\nhistory: %v", what, n, k.hist)
+					close(k.self.endNow) // end the flood so that the process can go on
+					return
+				}
+			}
+		}()
+	}
 	ok := vWatched(c, "request "+strings.SplitN(what, "(", 2)[0], 15*time.Second, func() { e = f() })
+	close(answered)
+	if c.Violated() && !k.dead {
+		k.dead = true
+		return nil, false
+	}
 	if !ok {
 		k.dead = true
 		if c.Violated() {
@@ -387,6 +426,12 @@ func (k *vCtl) startSource() bool {
 	case "selfend":
 		k.nchan = 3
 		k.self = vNewSelfEnd(3, k.c.R.Intn(2), 0)
+		if k.c.Idx%24 == 3 {
+			// a source that always has the next block on offer (processing has fallen behind the producer): requests must still get their turn
+			k.self.period = 0
+			k.flood = true
+			k.c.Cov("sessions_with_block_backlog", 1)
+		}
 		sc.ActiveSource = k.self
 		sc.status.SourceName = "SelfEnd"
 		sc.status.Running = true
@@ -960,7 +1005,7 @@ func (k *vCtl) reqMix() {
 
 func (k *vCtl) reqRawBlock() {
 	r := k.c.R
-	n := vPick(r, 1, 50, 400, 0, -3, 1<<50)
+	n := vPick(r, 1, 50, 400, 0, -3, 1<<50, 1<<61, 1<<62, math.MaxInt64, math.MaxInt64-12345)
 	want := "any"
 	if g := k.gate(); g != "" {
 		want = g
